@@ -943,6 +943,18 @@ class CallMixin:
             return t_
         return None
 
+    def x_functools_reduce(self, args: List[V], kwargs: Dict[str, V], node: Any) -> Optional[V]:
+        # reduce(f, <known members>[, init]) is the left fold it names
+        if len(args) in (2, 3) and not kwargs:
+            src = self._unwrap1(args[1])
+            if isinstance(src, (ListV, TupleV)) and src.concrete() and (len(args) == 3 or src.items):
+                items = list(src.items)
+                acc = args[2] if len(args) == 3 else items.pop(0)
+                for x in items:
+                    acc = self._invoke(args[0], [acc, x], {}, node)
+                return acc
+        return None
+
     def x_map(self, args: List[V], kwargs: Dict[str, V], node: Any) -> Optional[V]:
         if len(args) == 2 and isinstance(args[0], Term) and args[0].op in ("methodcaller", "attrgetter", "itemgetter"):
             src = self._unwrap1(args[1])
